@@ -19,7 +19,11 @@ func asObjectKey(param httpapi.TypedParam) string {
 	case *an.Basic:
 		underlying = t
 	case *an.Named:
-		underlying = t.Underlying.(*an.Basic)
+		basic, ok := t.Underlying.(*an.Basic)
+		if !ok {
+			panic("unsupported type for query parameter " + param.Name)
+		}
+		underlying = basic
 	default:
 		panic("unsupported type")
 	}
